@@ -45,8 +45,10 @@ def rdmsWith {α : Type} [Zero α] (dist : List α → List α → α) (rd : Jso
   let centers ← fld j "centers" >>= asList asNat
   let nbs ← fld j "neighbors" >>= asList (asList asNat)
   let ev ← fld j "events" >>= asList asInt
-  let pts ← fld j "pts" >>= asList asNat
+  let ptsO ← asOpt (asList asNat) (fldD j "pts" Json.null)
+  let pts := ptsO.getD (linspacePts centers.length)
   if nbs.length ≠ centers.length then throw "centers and neighbors differ in length"
+  if !(ptsOkB centers.length pts) then throw "split points not admissible"
   let rows := slRdms (calcRdm dist ev) (rdmWidth ev) data centers nbs pts
   pure (obj [("rdm", ofList (ofList wr) rows), ("voxel_index", ofList ofNat centers),
              ("chunked", Json.bool (Rsa.Gen.C19.chunked centers.length))])
@@ -58,8 +60,10 @@ def rdmsCvWith {α : Type} [Zero α] (dist : List α → List α → List α →
   let centers ← fld j "centers" >>= asList asNat
   let nbs ← fld j "neighbors" >>= asList (asList asNat)
   let ev ← fld j "events" >>= asList asInt
-  let pts ← fld j "pts" >>= asList asNat
+  let ptsO ← asOpt (asList asNat) (fldD j "pts" Json.null)
+  let pts := ptsO.getD (linspacePts centers.length)
   if nbs.length ≠ centers.length then throw "centers and neighbors differ in length"
+  if !(ptsOkB centers.length pts) then throw "split points not admissible"
   -- rejection depends on the design only
   match calcRdmCv dist ev [] with
   | .error e => throw e
@@ -93,6 +97,63 @@ def collectOp (j : Json) : R Json := do
   let res := collect tokens.length (fun i => arr.getD i Json.null) sched
   pure (ofList (ofOpt id) res)
 
+/-- `get_searchlight_RDMs` (euclidean, exact) followed by `evaluate_models_searchlight` with the
+    identity as evaluation function: the tasks as built by `for x in sl_RDM`, collected by slot
+    while completing in the order `sched`; answer: per slot `null` or `[voxel_index, vector]` -/
+def evalOp (j : Json) : R Json := do
+  let data ← fld j "data" >>= asList (asList asRat)
+  let centers ← fld j "centers" >>= asList asNat
+  let nbs ← fld j "neighbors" >>= asList (asList asNat)
+  let ev ← fld j "events" >>= asList asInt
+  let sched ← fld j "sched" >>= asList asNat
+  if nbs.length ≠ centers.length then throw "centers and neighbors differ in length"
+  let pts := linspacePts centers.length
+  if !(ptsOkB centers.length pts) then throw "split points not admissible"
+  let R := slResult (calcRdm dEuclid ev) (rdmWidth ev) data centers nbs pts
+  let res : List (Option (List Rat × Nat)) := evalSearchlight (parCollect sched) id R
+  pure (obj [("n_tasks", ofNat (slTasks R).length),
+             ("slots", ofList (ofOpt (fun t => Json.arr #[ofNat t.2, ofList ofRat t.1])) res)])
+
+/-- the whole pipeline on exact numbers: `get_volume_searchlight`, `get_searchlight_RDMs`
+    (euclidean), `evaluate_models_searchlight` with the identity as evaluation function and an
+    order-preserving `par`; answer: the result list `[[voxel_index, vector], …]` -/
+def pipelineOp (j : Json) : R Json := do
+  let s ← fld j "shape" >>= asShape
+  let flags ← fld j "mask" >>= asList asNat
+  let r ← fld j "radius" >>= asRat
+  let thr ← fld j "threshold" >>= asRat
+  let data ← fld j "data" >>= asList (asList asRat)
+  let ev ← fld j "events" >>= asList asInt
+  if flags.length ≠ size s then throw "mask length does not match shape"
+  let arr := flags.toArray
+  let m : Vox → Bool := fun v => arr.getD (ravel s v) 0 != 0
+  let vs := volumeSearchlight s m r thr
+  let pts := linspacePts vs.1.length
+  if !(ptsOkB vs.1.length pts) then throw "split points not admissible"
+  let R := slResult (calcRdm dEuclid ev) (rdmWidth ev) data vs.1 vs.2 pts
+  let res : List (List Rat × Nat) := evalSearchlight (fun ts f => ts.map f) id R
+  pure (ofList (fun t => Json.arr #[ofNat t.2, ofList ofRat t.1]) res)
+
+/-- the split points of `n` centres: numpy's (sent as the positions where they lie one below
+    `⌊i·n/100⌋`, or in full) checked for admissibility and compared with the model's own
+    double-precision `linspacePts`; `full`: also the chunk partition itself -/
+def pointsOp (j : Json) : R Json := do
+  let n ← fld j "n" >>= asNat
+  let ptsO ← asOpt (asList asNat) (fldD j "pts" Json.null)
+  let minus ← asOpt (asList asNat) (fldD j "minus_one" Json.null)
+  let full ← asOpt asBool (fldD j "full" Json.null)
+  let base := floorPts n
+  let pts := match ptsO with
+    | some p => p
+    | none =>
+      let m := minus.getD []
+      (List.range base.length).map (fun i => if m.contains i then base.getD i 0 - 1 else base.getD i 0)
+  let part := if full.getD false then decide ((splitIdx n pts).flatten = List.range n) else true
+  let lens := if full.getD false then ofList ofNat ((splitIdx n pts).map List.length) else Json.null
+  pure (obj [("ok", Json.bool (ptsOkB n pts)), ("float_model_equal", Json.bool (linspacePts n == pts)),
+             ("n_chunks", ofNat (splitIdx n pts).length), ("partition", Json.bool part),
+             ("lens", lens), ("chunked", Json.bool (Rsa.Gen.C19.chunked n))])
+
 /-- `np.split(np.arange(n), pts)` and the exact-arithmetic linspace points -/
 def splitOp (j : Json) : R Json := do
   let n ← fld j "n" >>= asNat
@@ -107,6 +168,9 @@ def handle : Handler := fun op j =>
   | "c19.rdms" => some (rdms j)
   | "c19.collect" => some (collectOp j)
   | "c19.split" => some (splitOp j)
+  | "c19.eval" => some (evalOp j)
+  | "c19.points" => some (pointsOp j)
+  | "c19.pipeline" => some (pipelineOp j)
   | _ => none
 
 end Rsa.Drv.C19
